@@ -130,7 +130,17 @@ pub fn gen(tier: &str, seed: u64) {
         emit("mv::dirichlet::mean", &[Arg::FL(alpha.clone())]);
         emit("mv::dirichlet::variance", &[Arg::FL(alpha)]);
         // Multinomial incl. zero entries
-        let p: Vec<f64> = (0..k).map(|j| if (i + j) % 5 == 0 { 0.0 } else { r.range(0.1, 3.0) }).collect();
+        let mut p: Vec<f64> = (0..k).map(|j| if (i + j) % 5 == 0 { 0.0 } else { r.range(0.1, 3.0) }).collect();
+        if i % 4 == 1 {
+            // weights whose sum is within 1e-9 .. 1e-3 of one, or exactly one
+            let s: f64 = p.iter().sum();
+            let off = [0.0, 1e-5, -1e-5, 9e-5, 1e-4, -1e-4, 1.1e-4, 1e-3, 1e-9][(i / 4) % 9];
+            if s > 0.0 {
+                for v in p.iter_mut() {
+                    *v = *v / s * (1.0 + off);
+                }
+            }
+        }
         let n = r.below(9) as i128;
         let mut xs: Vec<i128> = vec![0; k];
         for _ in 0..n {
